@@ -338,6 +338,8 @@ fn caps_iter_spans(re: &Regex, t: &str, max: usize) -> Out<(Vec<(usize, usize)>,
 pub struct CP {
     re: Regex,
     special: bool,
+    /// the same pattern under backtrack_limit(2): the entry points must also agree on errors
+    limited: Option<Regex>,
 }
 
 impl PatProp for Coherence {
@@ -352,7 +354,17 @@ impl PatProp for Coherence {
         if special {
             st.class("feature:\\K-or-\\G");
         }
-        Prep::Ready(CP { re, special })
+        let limited = if engine::is_vm(&re) {
+            match engine::build_with(pat, |b| {
+                b.backtrack_limit(2);
+            }) {
+                Built::Ok(r) => Some(r),
+                _ => None,
+            }
+        } else {
+            None
+        };
+        Prep::Ready(CP { re, special, limited })
     }
 
     fn eval(&self, _ctx: &RunCtx, p: &CP, _n: &Node, t: &str, pos: usize) -> Verdict {
@@ -372,6 +384,35 @@ impl PatProp for Coherence {
             return Verdict::Fail(Fail::new("find-vs-captures", format!("find_from_pos = {}", f.show()), format!("captures_from_pos.get(0) = {}", c0.show())));
         }
         let mut empty_in_iter = false;
+        if let Some(lre) = &p.limited {
+            // under a tiny backtrack limit the entry points run the same search: same answer or same error
+            let lf = engine::find_from_pos(lre, t, pos);
+            let lc = engine::captures_from_pos(lre, t, pos);
+            let lc0: Out<refm::Span> = match &lc {
+                Out::Val(v) => Out::Val(v.as_ref().and_then(|v| v[0])),
+                Out::Err(e) => Out::Err(e.clone()),
+                Out::Panic(x) => Out::Panic(x.clone()),
+            };
+            if !matches!(lf, Out::Panic(_)) && !matches!(lc0, Out::Panic(_)) && lf != lc0 {
+                return Verdict::Fail(Fail::new("find-vs-captures", format!("backtrack_limit(2): find_from_pos = {}", lf.show()), format!("captures_from_pos.get(0) = {}", lc0.show())));
+            }
+            if pos == 0 {
+                let lim = guard(|| lre.is_match(t));
+                let want = match &lf {
+                    Out::Val(v) => Out::Val(v.is_some()),
+                    Out::Err(e) => Out::Err(e.clone()),
+                    Out::Panic(x) => Out::Panic(x.clone()),
+                };
+                if !matches!(lf, Out::Panic(_)) && lim != want {
+                    return Verdict::Fail(Fail::new("is_match-vs-find", format!("backtrack_limit(2): find = {}", lf.show()), format!("is_match = {}", lim.show())));
+                }
+                let fi = engine::find_iter_spans(lre, t, t.len() + 3);
+                let ci = caps_iter_spans(lre, t, t.len() + 3);
+                if !matches!(fi, Out::Panic(_)) && !matches!(ci, Out::Panic(_)) && fi != ci {
+                    return Verdict::Fail(Fail::new("find_iter-vs-captures_iter", format!("backtrack_limit(2): find_iter = {}", fi.show()), format!("captures_iter = {}", ci.show())));
+                }
+            }
+        }
         if pos == 0 {
             let im = guard(|| re.is_match(t));
             let want = match &f {
@@ -414,7 +455,7 @@ impl PatProp for Coherence {
 pub fn run_c09(ctx: &RunCtx) -> Outcome {
     let p = Coherence;
     let mut o = Outcome::default();
-    o.rule = "unrestricted grammar as C05; for every (pattern, text, offset): find_from_pos == captures_from_pos.get(0) (same Err kind if any); at offset 0 also is_match <=> find.is_some(), find == find_from_pos(0), captures.get(0) == find, and the span sequence of captures_iter == that of find_iter including the position and kind of an Err. Non-trivial = pattern uses \\G or \\K, or the iteration contains an empty match. Distinct = distinct (pattern, text, offset).".into();
+    o.rule = "unrestricted grammar as C05; for every (pattern, text, offset): find_from_pos == captures_from_pos.get(0) (same Err kind if any); at offset 0 also is_match <=> find.is_some(), find == find_from_pos(0), captures.get(0) == find, and the span sequence of captures_iter == that of find_iter including the position and kind of an Err; for VM patterns the same comparisons are repeated under backtrack_limit(2), where searches end in errors. Non-trivial = pattern uses \\G or \\K, or the iteration contains an empty match. Distinct = distinct (pattern, text, offset).".into();
     o.assumptions = vec!["metamorphic: no external oracle, the entry points are compared with each other".into()];
     o.required_classes = vec!["feature:\\K-or-\\G".into(), "iteration:has-empty-match".into()];
     let (enumerated, prods) = wild_spaces(ctx);
@@ -996,7 +1037,7 @@ pub fn run_c11(ctx: &RunCtx) -> Outcome {
     o.required_classes = vec!["matches:>limit".into(), "matches:1..3".into(), "path:search-error-returned".into()];
     let pats = iter_space(ctx);
     let texts = iter_texts(ctx.quick());
-    let texts: Vec<String> = if ctx.quick() { texts.into_iter().filter(|t| t.chars().count() <= 2 || t.is_ascii()).collect() } else { texts };
+    let texts: Vec<String> = if ctx.quick() { texts.into_iter().filter(|t| t.chars().count() <= 2 || (t.is_ascii() && t.len() <= 4)).collect() } else { texts };
     if !stage(ctx, &mut o, &p, "core + \\G + é leaves, enumerated", &pats, &texts) {
         return o;
     }
